@@ -20,7 +20,7 @@ func registerAll() {
 			return []scen{{JSON: b, UID: sc.UID}}
 		},
 		Shrink:  uw.Shrink,
-		OneShot: false,
+		OneShot: true,
 		Timeout: 20 * time.Second,
 	}
 	registerPW()
